@@ -179,6 +179,29 @@ func upExec(c *hlib.RunCtx, t *simrt.Tape) (*hlib.Violation, int) {
 				}
 			}
 		}
+		// what a killed earlier run may have left behind
+		if dirKind != 3 && t.Bool(1, 4) {
+			w := refcal.Date(day - 3 - t.Draw(20))
+			rep := `{"Week":"` + w + `","X":0.25,"Config":"v0.1.0"}`
+			os.MkdirAll(m.upl, 0777)
+			switch t.Draw(5) {
+			case 0: // a lock nobody holds
+				os.WriteFile(filepath.Join(m.loc, w+".json"), []byte(rep), 0666)
+				os.WriteFile(filepath.Join(m.upl, w+".json.lock"), nil, 0666)
+			case 1: // recorded as uploaded, local copy not yet removed
+				os.WriteFile(filepath.Join(m.loc, w+".json"), []byte(rep), 0666)
+				os.WriteFile(filepath.Join(m.upl, w+".json"), []byte(rep), 0666)
+			case 2: // an empty uploaded marker
+				os.WriteFile(filepath.Join(m.loc, w+".json"), []byte(rep), 0666)
+				os.WriteFile(filepath.Join(m.upl, w+".json"), nil, 0666)
+			case 3: // staging files of the report writer
+				os.WriteFile(filepath.Join(m.loc, "local."+w+".json.tmp123"), []byte("{"), 0666)
+				os.WriteFile(filepath.Join(m.loc, w+".json.tmp456"), []byte(rep[:10]), 0666)
+			case 4: // the debug directory's name taken by a plain file
+				os.WriteFile(filepath.Join(m.tele, "debug"), []byte("x"), 0666)
+			}
+			s.Probe("left-by-a-killed-run")
+		}
 		if dirKind == 3 {
 			os.WriteFile(m.upl, []byte("not a directory"), 0666)
 		}
